@@ -68,6 +68,8 @@ struct pstate {
     struct cstl_bintree bt; struct cstl_rbtree rb; struct cstl_heap hp;
     struct cstl_dlist dl; struct cstl_slist sl; struct cstl_hash ht; cstl_map_t map;
     cstl_vector_t vec; cstl_string_t str, str2;
+    /* a second container of each kind, also this thread's own: swap (and, for lists, concat) need two operands */
+    struct cstl_bintree bt2; struct cstl_rbtree rb2; struct cstl_heap hp2; struct cstl_dlist dl2; struct cstl_slist sl2; struct cstl_hash ht2; cstl_vector_t vec2;
     uint32_t arr[48]; size_t arrn; uint32_t scratch;
     cstl_shared_ptr_t sp[3]; cstl_weak_ptr_t wp[2]; int cleared;
     cstl_array_t ar[3]; uint32_t ext[24]; int ext_user;       /* ext_user: which array object was set() over ext[], -1 none */
@@ -163,14 +165,20 @@ static uint64_t snap(struct pstate *s)
     uint64_t h = 0x9a7;
     size_t i;
     switch (kind_g) {
-    case 1: h = walk_bt(s->bt.root, offsetof(struct pel, bn), 0, 0, h); h = fnv1a(h, cstl_bintree_size(&s->bt)); break;
-    case 2: h = walk_bt(s->rb.t.root, offsetof(struct pel, rn.n), 1, 0, h); h = fnv1a(h, cstl_rbtree_size(&s->rb)); break;
-    case 7: h = walk_bt(s->hp.bt.root, offsetof(struct pel, bn), 0, 0, h); h = fnv1a(h, cstl_heap_size(&s->hp)); break;
+    case 1: h = walk_bt(s->bt.root, offsetof(struct pel, bn), 0, 0, h); h = fnv1a(h, cstl_bintree_size(&s->bt));
+            h = walk_bt(s->bt2.root, offsetof(struct pel, bn), 0, 0, h); h = fnv1a(h, cstl_bintree_size(&s->bt2)); break;
+    case 2: h = walk_bt(s->rb.t.root, offsetof(struct pel, rn.n), 1, 0, h); h = fnv1a(h, cstl_rbtree_size(&s->rb));
+            h = walk_bt(s->rb2.t.root, offsetof(struct pel, rn.n), 1, 0, h); h = fnv1a(h, cstl_rbtree_size(&s->rb2)); break;
+    case 7: h = walk_bt(s->hp.bt.root, offsetof(struct pel, bn), 0, 0, h); h = fnv1a(h, cstl_heap_size(&s->hp));
+            h = walk_bt(s->hp2.bt.root, offsetof(struct pel, bn), 0, 0, h); h = fnv1a(h, cstl_heap_size(&s->hp2)); break;
     case 12: {
         const struct cstl_dlist_node *n; int guard = 0;
         for (n = s->dl.h.n; n != &s->dl.h && guard++ < 200; n = n->n) h = fnv1a(h, (uint64_t)ELOF(n, dn)->id + 1);
         for (n = s->dl.h.p; n != &s->dl.h && guard++ < 400; n = n->p) h = fnv1a(h, (uint64_t)ELOF(n, dn)->id + 3);
         h = fnv1a(h, cstl_dlist_size(&s->dl));
+        for (guard = 0, n = s->dl2.h.n; n != &s->dl2.h && guard++ < 200; n = n->n) h = fnv1a(h, (uint64_t)ELOF(n, dn)->id + 5);
+        for (n = s->dl2.h.p; n != &s->dl2.h && guard++ < 400; n = n->p) h = fnv1a(h, (uint64_t)ELOF(n, dn)->id + 7);
+        h = fnv1a(h, cstl_dlist_size(&s->dl2));
         break;
     }
     case 13: {
@@ -178,12 +186,17 @@ static uint64_t snap(struct pstate *s)
         for (n = s->sl.h.n; n != NULL && guard++ < 200; n = n->n) h = fnv1a(h, (uint64_t)ELOF(n, sn)->id + 1);
         h = fnv1a(h, cstl_slist_size(&s->sl));
         h = fnv1a(h, s->sl.t == &s->sl.h ? 0 : (uint64_t)ELOF(s->sl.t, sn)->id + 1);
+        for (guard = 0, n = s->sl2.h.n; n != NULL && guard++ < 200; n = n->n) h = fnv1a(h, (uint64_t)ELOF(n, sn)->id + 5);
+        h = fnv1a(h, cstl_slist_size(&s->sl2));
+        h = fnv1a(h, s->sl2.t == &s->sl2.h ? 0 : (uint64_t)ELOF(s->sl2.t, sn)->id + 1);
         break;
     }
     case 3: {
         uint64_t fh = 0x3;      /* on this task's stack: the audit itself may be preempted */
         g_inlib = 1; cstl_hash_foreach(&s->ht, fe_visit, &fh); g_inlib = 0;
         h = fnv1a(h, fh); h = fnv1a(h, cstl_hash_size(&s->ht));
+        fh = 0x5; g_inlib = 1; cstl_hash_foreach(&s->ht2, fe_visit, &fh); g_inlib = 0;
+        h = fnv1a(h, fh); h = fnv1a(h, cstl_hash_size(&s->ht2));
         break;
     }
     case 8: {
@@ -196,6 +209,9 @@ static uint64_t snap(struct pstate *s)
         size_t n = cstl_vector_size(&s->vec);
         const uint32_t *d = cstl_vector_data(&s->vec);
         h = fnv1a(h, n); h = fnv1a(h, cstl_vector_capacity(&s->vec));
+        for (i = 0; i < n; i++) h = fnv1a(h, d[i]);
+        n = cstl_vector_size(&s->vec2); d = cstl_vector_data(&s->vec2);
+        h = fnv1a(h, n); h = fnv1a(h, cstl_vector_capacity(&s->vec2));
         for (i = 0; i < n; i++) h = fnv1a(h, d[i]);
         break;
     }
@@ -228,7 +244,21 @@ static uint64_t snap(struct pstate *s)
 
 /* ------------------------------------------------------------ operations */
 
-#define L(stmt) do { g_inlib = 1; stmt; g_inlib = 0; } while (0)
+/* instruction-level jitter (schedules 3-5): when the quantum of basic blocks is used up, the thread is not stopped at the block
+ * boundary but the x86 trap flag is set, a SIGTRAP arrives after every instruction, and the thread is stopped after 1 ... 24
+ * more instructions whose address lies in the library's own code section. A window of a few instructions inside one basic
+ * block (three inlined structure copies through a static temporary) is invisible at basic-block granularity and wide open
+ * here. (Single-stepping whole runs works too but costs 35 us a trap in this VM.) */
+static int step_mode; static long fine; static uint64_t lib_steps, all_traps;
+extern char __start_libtext[] __attribute__((weak)), __stop_libtext[] __attribute__((weak));
+#if defined(__x86_64__)
+# define TF_ON()  __asm__ volatile("leaq -128(%%rsp), %%rsp\n\tpushfq\n\torq $0x100, (%%rsp)\n\tpopfq\n\tleaq 128(%%rsp), %%rsp" ::: "cc", "memory")
+# define TF_OFF() __asm__ volatile("leaq -128(%%rsp), %%rsp\n\tpushfq\n\tandq $-257, (%%rsp)\n\tpopfq\n\tleaq 128(%%rsp), %%rsp" ::: "cc", "memory")
+#else
+# define TF_ON() ((void)0)
+# define TF_OFF() ((void)0)
+#endif
+#define L(stmt) do { g_inlib = 1; stmt; if (step_mode) { TF_OFF(); if (fine > 0) { fine = 0; quantum = 0; } } g_inlib = 0; } while (0)
 
 static struct pel *free_el(struct pstate *s) { int i; for (i = 0; i < PN; i++) if (!s->el[i].in) return &s->el[i]; return NULL; }
 static uint64_t idof(const void *e) { return e ? (uint64_t)((const struct pel *)e)->id + 1 : 0; }
@@ -245,14 +275,14 @@ static void st_init(struct pstate *s, int t, uint64_t seed, unsigned junk)
     if (t == 2) s->ord.dir = -1;                                          /* the third thread really orders the other way round */
     g_inlib = 1;
     switch (kind_g) {
-    case 1: cstl_bintree_init(&s->bt, CMP_EL(s), &s->ord, offsetof(struct pel, bn)); break;
-    case 2: cstl_rbtree_init(&s->rb, CMP_EL(s), &s->ord, offsetof(struct pel, rn)); break;
-    case 7: cstl_heap_init(&s->hp, CMP_EL(s), &s->ord, offsetof(struct pel, bn)); break;
-    case 12: cstl_dlist_init(&s->dl, offsetof(struct pel, dn)); break;
-    case 13: cstl_slist_init(&s->sl, offsetof(struct pel, sn)); break;
-    case 3: cstl_hash_init(&s->ht, offsetof(struct pel, hn)); cstl_hash_resize(&s->ht, 5, NULL); break;
+    case 1: cstl_bintree_init(&s->bt, CMP_EL(s), &s->ord, offsetof(struct pel, bn)); cstl_bintree_init(&s->bt2, CMP_EL(s), &s->ord, offsetof(struct pel, bn)); break;
+    case 2: cstl_rbtree_init(&s->rb, CMP_EL(s), &s->ord, offsetof(struct pel, rn)); cstl_rbtree_init(&s->rb2, CMP_EL(s), &s->ord, offsetof(struct pel, rn)); break;
+    case 7: cstl_heap_init(&s->hp, CMP_EL(s), &s->ord, offsetof(struct pel, bn)); cstl_heap_init(&s->hp2, CMP_EL(s), &s->ord, offsetof(struct pel, bn)); break;
+    case 12: cstl_dlist_init(&s->dl, offsetof(struct pel, dn)); cstl_dlist_init(&s->dl2, offsetof(struct pel, dn)); break;
+    case 13: cstl_slist_init(&s->sl, offsetof(struct pel, sn)); cstl_slist_init(&s->sl2, offsetof(struct pel, sn)); break;
+    case 3: cstl_hash_init(&s->ht, offsetof(struct pel, hn)); cstl_hash_resize(&s->ht, 5, NULL); cstl_hash_init(&s->ht2, offsetof(struct pel, hn)); cstl_hash_resize(&s->ht2, 3, NULL); break;
     case 8: cstl_map_init(&s->map, cmp_int, &s->ord); break;
-    case 9: cstl_vector_init(&s->vec, sizeof(uint32_t)); break;
+    case 9: cstl_vector_init(&s->vec, sizeof(uint32_t)); cstl_vector_init(&s->vec2, sizeof(uint32_t)); break;
     case 10: cstl_string_init(&s->str); cstl_string_init(&s->str2); break;
     case 5: for (i = 0; i < 3; i++) cstl_shared_ptr_init(&s->sp[i]); for (i = 0; i < 2; i++) cstl_weak_ptr_init(&s->wp[i]); break;
     case 14: for (i = 0; i < 3; i++) cstl_array_init(&s->ar[i]); for (i = 0; i < 24; i++) s->ext[i] = (uint32_t)(t * 1000 + i); s->ext_user = -1; break;
@@ -272,9 +302,9 @@ static void st_fini(struct pstate *s)
     int i;
     g_inlib = 1;
     switch (kind_g) {
-    case 3: cstl_hash_clear(&s->ht, NULL); break;
+    case 3: cstl_hash_clear(&s->ht, NULL); cstl_hash_clear(&s->ht2, NULL); break;
     case 8: cstl_map_clear(&s->map, NULL, NULL); break;
-    case 9: cstl_vector_clear(&s->vec); break;
+    case 9: cstl_vector_clear(&s->vec); cstl_vector_clear(&s->vec2); break;
     case 10: cstl_string_clear(&s->str); cstl_string_clear(&s->str2); break;
     case 5: for (i = 0; i < 3; i++) cstl_shared_ptr_reset(&s->sp[i]); for (i = 0; i < 2; i++) cstl_weak_ptr_reset(&s->wp[i]); break;
     case 14: for (i = 0; i < 3; i++) cstl_array_reset(&s->ar[i]); break;
@@ -288,6 +318,21 @@ static uint64_t do_op(struct pstate *s, const op_t *o)
     struct pel probe, *e; void *ret = NULL;
     memset(&probe, 0, sizeof probe);
     probe.key = (int)(a % 12); probe.id = -1;
+    if (b % 11 == 7 || (b % 11 == 8 && (kind_g == 12 || kind_g == 13))) {
+        /* the thread's two containers of this kind trade places (or, lists: the second is appended to the first) first */
+        int q, did = 1, cat = b % 11 == 8;
+        switch (kind_g) {
+        case 1: L(cstl_bintree_swap(&s->bt, &s->bt2)); break;
+        case 2: L(cstl_rbtree_swap(&s->rb, &s->rb2)); break;
+        case 7: L(cstl_heap_swap(&s->hp, &s->hp2)); break;
+        case 12: if (cat) L(cstl_dlist_concat(&s->dl, &s->dl2)); else L(cstl_dlist_swap(&s->dl, &s->dl2)); break;
+        case 13: if (cat) L(cstl_slist_concat(&s->sl, &s->sl2)); else L(cstl_slist_swap(&s->sl, &s->sl2)); break;
+        case 3: L(cstl_hash_swap(&s->ht, &s->ht2)); break;
+        case 9: L(cstl_vector_swap(&s->vec, &s->vec2)); break;
+        default: did = 0;
+        }
+        if (did && kind_g != 9) for (q = 0; q < PN; q++) { if (cat) { if (s->el[q].in == 2) s->el[q].in = 1; } else if (s->el[q].in) s->el[q].in = 3 - s->el[q].in; }
+    }
     switch (kind_g) {
     case 1: case 2:
         switch (sel % 7) {
@@ -322,7 +367,7 @@ static uint64_t do_op(struct pstate *s, const op_t *o)
         break;
     case 7:
         switch (sel % 8) {
-        case 7: { int q; uint64_t n = 0; L(cstl_heap_clear(&s->hp, clr_count)); for (q = 0; q < PN; q++) { n += (uint64_t)s->el[q].in; s->el[q].in = 0; } r = n; break; }
+        case 7: { int q; uint64_t n = 0; L(cstl_heap_clear(&s->hp, clr_count)); for (q = 0; q < PN; q++) if (s->el[q].in == 1) { n++; s->el[q].in = 0; } r = n; break; }
         case 0: case 1: case 2: case 3:
             if ((e = free_el(s)) == NULL) break;
             e->key = (int)(a % 12); e->in = 1;
@@ -336,7 +381,7 @@ static uint64_t do_op(struct pstate *s, const op_t *o)
         break;
     case 12:
         switch (sel % 9) {
-        case 8: { int q; uint64_t n = 0; L(cstl_dlist_clear(&s->dl, clr_count)); for (q = 0; q < PN; q++) { n += (uint64_t)s->el[q].in; s->el[q].in = 0; } r = n; break; }
+        case 8: { int q; uint64_t n = 0; L(cstl_dlist_clear(&s->dl, clr_count)); for (q = 0; q < PN; q++) if (s->el[q].in == 1) { n++; s->el[q].in = 0; } r = n; break; }
         case 0: case 1: if ((e = free_el(s)) == NULL) break; e->key = (int)(a % 12); e->in = 1; L(cstl_dlist_push_back(&s->dl, e)); r = idof(e); break;
         case 2: if ((e = free_el(s)) == NULL) break; e->key = (int)(a % 12); e->in = 1; L(cstl_dlist_push_front(&s->dl, e)); r = idof(e); break;
         case 3: L(ret = cstl_dlist_pop_front(&s->dl)); if (ret) ((struct pel *)ret)->in = 0; r = idof(ret); break;
@@ -348,7 +393,7 @@ static uint64_t do_op(struct pstate *s, const op_t *o)
         break;
     case 13:
         switch (sel % 8) {
-        case 7: { int q; uint64_t n = 0; L(cstl_slist_clear(&s->sl, clr_count)); for (q = 0; q < PN; q++) { n += (uint64_t)s->el[q].in; s->el[q].in = 0; } r = n; break; }
+        case 7: { int q; uint64_t n = 0; L(cstl_slist_clear(&s->sl, clr_count)); for (q = 0; q < PN; q++) if (s->el[q].in == 1) { n++; s->el[q].in = 0; } r = n; break; }
         case 0: case 1: if ((e = free_el(s)) == NULL) break; e->key = (int)(a % 12); e->in = 1; L(cstl_slist_push_back(&s->sl, e)); r = idof(e); break;
         case 2: if ((e = free_el(s)) == NULL) break; e->key = (int)(a % 12); e->in = 1; L(cstl_slist_push_front(&s->sl, e)); r = idof(e); break;
         case 3: L(ret = cstl_slist_pop_front(&s->sl)); if (ret) ((struct pel *)ret)->in = 0; r = idof(ret); break;
@@ -477,11 +522,36 @@ static void fiber_yield(void)
 
 static void preempt(void)
 {
-    if (cur >= 0 && --quantum <= 0) { switches++; fiber_yield(); }
+    if (cur >= 0 && --quantum <= 0) {
+        if (step_mode) { if (fine <= 0) { fine = 1 + (long)prng_below(&sprng, 24); TF_ON(); } return; }
+        switches++; fiber_yield();
+    }
 }
+
+#if defined(__x86_64__)
+#include <signal.h>
+#include <ucontext.h>
+static void trap_handler(int sig, siginfo_t *si, void *ucv)
+{
+    /* runs on the interrupted fiber's stack; the kernel has cleared the trap flag for the handler and puts it back on return.
+     * Switching fibers from here is an ordinary swapcontext: the other fiber resumes inside its own handler invocation (or at
+     * its start, or at its end) and returns to its own saved flags. */
+    const ucontext_t *uc = ucv; uintptr_t pc = (uintptr_t)uc->uc_mcontext.gregs[REG_RIP];
+    (void)sig; (void)si;
+    all_traps++;
+    if (cur < 0 || !g_inlib || fine <= 0) { ((ucontext_t *)ucv)->uc_mcontext.gregs[REG_EFL] &= ~(greg_t)0x100; return; }
+    if (pc < (uintptr_t)__start_libtext || pc >= (uintptr_t)__stop_libtext) return;      /* in a callback or in libc: keep stepping */
+    lib_steps++;
+    if (--fine <= 0) {
+        switches++; fiber_yield();
+        ((ucontext_t *)ucv)->uc_mcontext.gregs[REG_EFL] &= ~(greg_t)0x100;              /* resumed: run on at full speed */
+    }
+}
+#endif
 
 static void fiber_escape(void)
 {
+    if (step_mode) TF_OFF();
     if (cur >= 0) { pending_violation = 1; swapcontext(&tk[cur].ctx, &sched_ctx); }
 }
 
@@ -489,6 +559,7 @@ static void abort_in_fiber(int kind)
 {
     char key[96];
     g_inlib = 0;
+    if (step_mode) TF_OFF();
     snprintf(key, sizeof key, "%s/%s/op/two-threads-distinct-objects", prop_g, kind == 2 ? "assert" : "abort");
     sim_violation(key, "the library %s in one of two threads that each use only their own objects", kind == 2 ? "failed an assertion" : "aborted");
 }
@@ -525,7 +596,8 @@ static void p_exec(const plan_t *p)
     int t, k; uint64_t sh = 0x9a;
 
     K = (int)p->cfg[CF_K]; if (K < 2) K = 2; if (K > PT) K = PT;
-    kind_g = p->mode;
+    kind_g = p->mode % 200;
+    step_mode = 0; fine = 0;
     prop_g = kind_g == 1 ? "C01" : kind_g == 2 ? "C02" : kind_g == 3 ? "C03" : kind_g == 5 ? "C05" : kind_g == 7 ? "C07" : kind_g == 8 ? "C08" :
              kind_g == 9 ? "C09" : kind_g == 10 ? "C10" : kind_g == 11 ? "C11" : kind_g == 12 ? "C12" : kind_g == 14 ? "C14" : "C13";
     g_cur_prop = prop_g; g_cur_ctx = "two-threads-distinct-objects";
@@ -559,6 +631,14 @@ static void p_exec(const plan_t *p)
         makecontext(&tk[t].ctx, (void (*)(void))task_main, 1, t);
     }
     g_preempt_hook = preempt;
+#if defined(__x86_64__)
+    if ((p->mode >= 200 || p->cfg[CF_STRAT] >= 3) && __start_libtext != NULL && __stop_libtext > __start_libtext) {
+        struct sigaction sa;
+        memset(&sa, 0, sizeof sa); sa.sa_sigaction = trap_handler; sa.sa_flags = SA_SIGINFO; sigemptyset(&sa.sa_mask);
+        sigaction(SIGTRAP, &sa, NULL);
+        step_mode = 1; lib_steps = 0; fine = 0;
+    }
+#endif
     for (;;) {
         int el[PT], n = 0;
         for (t = 0; t < K; t++) if (!tk[t].done) el[n++] = t;
@@ -566,7 +646,7 @@ static void p_exec(const plan_t *p)
         if (p->cfg[CF_STRAT] % 3 == 0) {
             /* uniform: a random thread runs for a short quantum (a handful of basic blocks), sometimes a long one */
             t = el[prng_below(&sprng, (uint64_t)n)];
-            quantum = 1 + (long)prng_below(&sprng, prng_chance(&sprng, 1, 8) ? Q * 40 : Q);
+            quantum = 1 + (long)prng_below(&sprng, (prng_chance(&sprng, 1, 8) ? Q * 40 : Q));
         } else {
             /* park and overtake: a thread is stopped at a random point inside an operation and stays parked while
              * another one runs through whole operations (hundreds or thousands of basic blocks), then it resumes */
@@ -587,9 +667,12 @@ static void p_exec(const plan_t *p)
         sh = fnv1a(sh, (uint64_t)t * 64 + (uint64_t)tk[t].pc);
         cur = t;
         swapcontext(&sched_ctx, &tk[t].ctx);
+        if (step_mode) TF_OFF();        /* (the flag is a CPU flag: swapcontext neither saves nor restores it) */
         cur = -1; g_inlib = 0;
-        if (pending_violation) { g_preempt_hook = NULL; g_rand_hook = NULL; _longjmp(g_run_jmp, 1); }
+        if (pending_violation) { g_preempt_hook = NULL; g_rand_hook = NULL; step_mode = 0; _longjmp(g_run_jmp, 1); }
     }
+    if (step_mode) { PROBE("par_single_step_runs"); PROBE_N("par_library_instructions_stepped", lib_steps); PROBE_N("par_traps_in_all", all_traps); all_traps = 0; }
+    step_mode = 0;
     g_preempt_hook = NULL; g_rand_hook = NULL;
     g_fiber_escape = NULL; g_abort_in_fiber = NULL;
     if (simheap_live_count(TAG_LIB) != 0) { char key[96]; snprintf(key, sizeof key, "%s/leak/op/two-threads-distinct-objects", prop_g); sim_violation(key, "%u library blocks left after every container was cleared", simheap_live_count(TAG_LIB)); }
@@ -606,12 +689,12 @@ static void p_gen(prng_t *r, int mode, plan_t *p)
 {
     static const uint64_t quants[] = { 2, 5, 12, 40, 150 };
     int K_ = 2 + (int)prng_below(r, 2), t, i;
-    (void)mode;
     p->cfg[CF_K] = (uint64_t)K_;
     p->cfg[CF_SSEED] = prng_next(r);
     p->cfg[CF_JUNK] = 1 + prng_below(r, 254);
     p->cfg[CF_QUANT] = quants[prng_below(r, 5)];
-    p->cfg[CF_STRAT] = prng_below(r, 3);
+    p->cfg[CF_STRAT] = prng_below(r, 6);      /* 0 uniform, 1-2 park and overtake; 3-5 the same with instruction-level jitter */
+    (void)mode;
     for (t = 0; t < PT; t++) p->cfg[CF_TSEED0 + t] = prng_next(r);
     for (t = 0; t < K_; t++) {
         int n = 4 + (int)prng_below(r, 30);
